@@ -239,6 +239,34 @@ func runC08(c *Ctx) {
 		c.Check(shiftDef, "shift=faults-1", "the exponent is faults-1 (first fault waits initialDelay)", c.P.Pos(fn.Decl.Pos()), "no 'faults - 1' definition found")
 	})
 
+	c.Rule("fault-counter-writers", func() {
+		// the consecutive-fault count and its timestamp change only in recordFault: a restart (which shuts the actor down
+		// and resets its per-incarnation fields) must not erase the faults just recorded on the members of a restart group
+		n := 0
+		for _, name := range []string{"consecutiveFaults", "lastFaultAtNano"} {
+			fv := c.Field("actor", "PID", name)
+			for _, u := range c.UsesOf(fv) {
+				if u.Sel == nil || len(u.Path) < 3 {
+					continue
+				}
+				call, ok := u.Path[len(u.Path)-3].(*ast.CallExpr)
+				sel, ok2 := u.Path[len(u.Path)-2].(*ast.SelectorExpr)
+				if !ok || !ok2 || call.Fun != ast.Expr(sel) {
+					continue
+				}
+				switch sel.Sel.Name {
+				case "Store", "Inc", "Dec", "Add", "Sub", "Swap", "CompareAndSwap", "CAS":
+					n++
+					c.Check(funcName(u.EnclObj) == "actor.(*PID).recordFault", name+"."+sel.Sel.Name+"@"+u.EnclName(), "the fault counter and its timestamp are modified only by recordFault", u.Where(c.P),
+						name+" is modified in "+u.EnclName()+": the restart budget and the backoff exponent are computed from a count that something else resets")
+				}
+			}
+		}
+		if n < 3 {
+			c.Undecided("fault-counter-writers/sites", "fault counter modification sites found", "-", "found "+itoa(n))
+		}
+	})
+
 	c.Rule("recordFault", func() {
 		fn := c.Func("actor", "PID.recordFault")
 		f := c.NewFlow(fn)
